@@ -4,6 +4,17 @@ argv: runname compl spec_json out_json
 spec = {"mode": "record"}                                  -> record every time_limit activation and the lines run inside it
 spec = {"mode": "inject", "faults": [[k, n], ...]}          -> deliver SIGALRM (a genuine TimeoutException through ESR's own
                                                               handler) before the n-th line event of the k-th activation
+spec = {"mode": "inject", "persist": [{"fn":.., "with_line":.., "lines":[..], "sel": SEL}, ...]}
+                                                           -> PERSISTENT fault: SIGALRM the first time one of `lines` (a statement
+                                                              and its twins in the other arm of a flag conditional, e.g. the
+                                                              `if expand_fun:` / `else:` re-print) is about to run in
+                                                              EVERY activation of the block (fn, with_line) whose function is
+                                                              selected by SEL - in every round, in every later call (second
+                                                              do_sympy loop, check_results): "a slow function is slow every time"
+   SEL = {"kind": "all"} | {"kind": "exact", "seed": [strings]} | {"kind": "lineage", "seed": [strings]}
+   The function of an activation is the string `L[V]` of the enclosing `for V in range(len(L))` loop read when the block is
+   entered (derived from the source by ast; `keys[j]` in expand_or_factor).  "lineage" adds to the selected set every string a
+   selected function is rewritten to by a block that ran to completion (the rewritten form of a slow function is slow too).
 Line events are enabled only for code objects of esr/generation/simplifier.py (sys.monitoring, local events).
 """
 import json, os, signal, sys
@@ -15,9 +26,62 @@ kw = spec.get("kw", {})
 import esr.generation.simplifier as simplifier
 import esr.generation.duplicate_checker as dc
 
-state = dict(active=False, k=-1, n=0, with_line=None, log=[], fired=[], cur=None)
+state = dict(active=False, k=-1, n=0, with_line=None, log=[], fired=[], cur=None, nfired=0, armed=[], selected_log=[])
 faults = {int(k): int(n) for k, n in spec.get("faults", [])}
+persist = spec.get("persist", [])
+for ps in persist:
+    ps["_set"] = set(ps.get("sel", {}).get("seed", []))
+    ps["_lines"] = set(int(l) for l in ps["lines"])
 orig_time_limit = simplifier.time_limit
+
+# ---- which function a block is working on: `L[V]` of the enclosing `for V in range(len(L))` -------------------------
+import ast as _ast
+FID_FALLBACK = {"expand_or_factor": ("keys", "j")}
+FID = {}       # (fn, with_line) -> (list name, index name)
+try:
+    _tree = _ast.parse(open(simplifier.__file__).read())
+    for _fn in _tree.body:
+        if not isinstance(_fn, _ast.FunctionDef):
+            continue
+
+        def _walk(body, loop):
+            for st in body:
+                lp = loop
+                if isinstance(st, _ast.For) and isinstance(st.target, _ast.Name) and isinstance(st.iter, _ast.Call) \
+                        and getattr(st.iter.func, "id", None) == "range" and len(st.iter.args) == 1 \
+                        and isinstance(st.iter.args[0], _ast.Call) and getattr(st.iter.args[0].func, "id", None) == "len" \
+                        and isinstance(st.iter.args[0].args[0], _ast.Name):
+                    lp = (st.iter.args[0].args[0].id, st.target.id)
+                elif isinstance(st, (_ast.For, _ast.While)):
+                    lp = FID_FALLBACK.get(_fn.name) if loop is None else loop
+                if isinstance(st, _ast.With):
+                    FID[(_fn.name, st.lineno)] = lp or FID_FALLBACK.get(_fn.name)
+                for f in ("body", "orelse", "finalbody"):
+                    if isinstance(getattr(st, f, None), list):
+                        _walk(getattr(st, f), lp)
+                for h in getattr(st, "handlers", []) or []:
+                    _walk(h.body, lp)
+        _walk(_fn.body, None)
+except Exception:
+    FID = {}
+
+
+def _fid(fr, fn, with_line):
+    e = FID.get((fn, with_line))
+    if not e:
+        return None
+    try:
+        v = fr.f_locals[e[0]][fr.f_locals[e[1]]]
+        return v if isinstance(v, str) else str(v)
+    except Exception:
+        return None
+
+
+def _selected(ps, fid):
+    kind = ps.get("sel", {}).get("kind", "all")
+    if kind == "all":
+        return True
+    return fid is not None and fid in ps["_set"]
 
 
 @contextmanager
@@ -28,11 +92,27 @@ def time_limit(seconds):
         state["n"] = 0
         state["active"] = True
         fr = sys._getframe(2)
-        state["cur"] = dict(k=state["k"], fn=fr.f_code.co_name, with_line=fr.f_lineno, lines=[])
+        fn, wl = fr.f_code.co_name, fr.f_lineno
+        fid = _fid(fr, fn, wl)
+        state["cur"] = dict(k=state["k"], fn=fn, with_line=wl, fid=fid, lines=[])
+        # persistent faults armed for this activation: line -> spec
+        state["armed"] = [ps for ps in persist if ps["fn"] == fn and int(ps["with_line"]) == wl and _selected(ps, fid)]
         try:
             yield
+        except BaseException:
+            raise
+        else:
+            # the block ran to completion: follow a selected function through its rewrite
+            if persist:
+                new = _fid(fr, fn, wl)
+                if new is not None and fid is not None and new != fid:
+                    for ps in persist:
+                        if ps.get("sel", {}).get("kind") == "lineage" and fid in ps["_set"] and new not in ps["_set"]:
+                            ps["_set"].add(new)
+                            state["selected_log"].append([fid, new])
         finally:
             state["active"] = False
+            state["armed"] = []
             if spec["mode"] == "record":
                 state["log"].append(state["cur"])
 
@@ -56,7 +136,17 @@ def on_line(code, line):
     tgt = faults.get(state["k"])
     if tgt is not None and state["n"] == tgt:
         state["fired"].append([state["k"], tgt, code.co_name, line])
+        state["nfired"] += 1
         signal.raise_signal(signal.SIGALRM)
+        return
+    for ps in state["armed"]:
+        if line in ps["_lines"]:
+            state["armed"] = []          # once per activation
+            state["nfired"] += 1
+            if len(state["fired"]) < 60:
+                state["fired"].append([state["k"], state["n"], code.co_name, line, state["cur"]["fid"]])
+            signal.raise_signal(signal.SIGALRM)
+            return
 
 
 mon.register_callback(TOOL, mon.events.LINE, on_line)
@@ -75,5 +165,6 @@ except BaseException as e:
     status = "raised"
     err = "%s: %s | %s" % (type(e).__name__, e, traceback.format_exc()[-900:])
 with open(outp, "w") as fh:
-    json.dump(dict(status=status, error=err, activations=state["k"] + 1, log=state["log"], fired=state["fired"]), fh)
+    json.dump(dict(status=status, error=err, activations=state["k"] + 1, log=state["log"], fired=state["fired"], nfired=state["nfired"],
+                   lineage=state["selected_log"][:40]), fh)
 sys.exit(0 if status == "ok" else 1)
